@@ -1,23 +1,26 @@
 (** * C07 - model of cohdl's usage check ("one driver per signal").
 
-    Mirrors, as coded,
+    Mirrors, as coded on the current tree,
       - [EntityTemplate.__init__] (cohdl/_core/_ir/_repr.py): [check_usage] with the
         [written_in] / [used_in] maps, the input-port rule, and the loop over the
-        OUTPUT ports of instantiated entities;
-      - [ConvertInstance.apply] (cohdl/_compiler/frontend/_generate_ir.py): variables are
-        rejected in concurrent contexts, temporaries must be written before they are read
+        OUTPUT ports of instantiated entities (with its input-port rule);
+      - [ConvertInstance.apply] / [IrGenerator.convert_sequential]
+        (cohdl/_compiler/frontend/_generate_ir.py): variables are rejected in concurrent
+        contexts and in always expressions, temporaries must be written before they are read
         (concurrent contexts l.1133-1148, sequential contexts [detect_uninitialized_temporaries],
-        always expressions [convert_sequential.find_temporaries]);
-      - the one frontend rule the placements can reach: a variable is assigned outside a
-        sequential body ("variable assignment only possible in sequential contexts").
+        always expressions [find_temporaries]);
+      - the late rule "variable assignment only possible in sequential contexts" (only reachable
+        under the old discipline).
 
     A design is abstracted to the ordered access events of every context; an event is
     (root object, R | W | Push, kind of the object).  Two visiting disciplines:
-      - [Coded]: a sequential context is visited TOGETHER with its hoisted [always] block
-        under one [current_ctx]  (what /repo does);
-      - [Fixed]: the always block is a context of its own (it is emitted as separate
-        concurrent statements), variables are rejected inside it, and an instance output
-        connected to an input port is rejected.
+      - [Current] (= [check], what /repo does since the fix commits 8d3d526, 615f499, f68d635):
+        the always block of a sequential context is visited as a context of its own (it is
+        emitted as separate concurrent statements), variables are rejected inside it, and an
+        instance output connected to an input port is rejected;
+      - [Old] (= [check_old], kept for the regression witnesses): a sequential context was
+        visited TOGETHER with its hoisted [always] block under one [current_ctx], no variable
+        rule for always expressions, no input-port rule in the instance loop.
 
     The SPEC ([drivers], [users], [no_input_written]) never depends on the discipline:
     a sequential body is one process, an always block is its own concurrent statement(s),
@@ -80,7 +83,7 @@ Qed.
 Definition owner_eq_dec (a b : owner) : {a = b} + {a <> b}.
 Proof. decide equality; apply Nat.eq_dec. Defined.
 
-Inductive discipline := Coded | Fixed.
+Inductive discipline := Old | Current.
 
 Definition always_events (c : context) : list event :=
   match c.(c_always) with Some es => es | None => [] end.
@@ -94,8 +97,8 @@ Fixpoint visits (m : discipline) (n : nat) (cs : list context) : list (owner * e
   | [] => []
   | c :: r =>
       (match m with
-       | Coded => tag (OCtx n) (always_events c ++ c.(c_body))
-       | Fixed => tag (OAlw n) (always_events c) ++ tag (OCtx n) c.(c_body)
+       | Old => tag (OCtx n) (always_events c ++ c.(c_body))
+       | Current => tag (OAlw n) (always_events c) ++ tag (OCtx n) c.(c_body)
        end) ++ visits m (S n) r
   end.
 
@@ -166,7 +169,7 @@ Fixpoint inst_ports (m : discipline) (n : nat) (outs : list (positive * okind)) 
   | [] => inr w
   | (root, k) :: r =>
       match m, is_input k with
-      | Fixed, true => inl RInputWritten
+      | Current, true => inl RInputWritten
       | _, _ =>
           match find root w with
           | Some _ => inl RMultiWrite
@@ -220,9 +223,11 @@ Definition ci_ctx (m : discipline) (c : context) : option reason :=
       if existsb (fun e => is_var e.(e_kind)) c.(c_body) then Some RVarInConc
       else if temps_ok [] c.(c_body) then None else Some RTempRead
   | Sequential =>
-      if negb (temps_ok [] (always_events c)) then Some RTempRead
-      else if match m with Fixed => existsb (fun e => is_var e.(e_kind)) (always_events c) | Coded => false end
+      (* convert_sequential: variables (current tree), then inherited temporaries, of the always
+         expression; afterwards detect_uninitialized_temporaries on the body *)
+      if match m with Current => existsb (fun e => is_var e.(e_kind)) (always_events c) | Old => false end
       then Some RVarInConc
+      else if negb (temps_ok [] (always_events c)) then Some RTempRead
       else if temps_ok [] c.(c_body) then None else Some RTempRead
   end.
 
@@ -263,13 +268,13 @@ Definition reason_eqb (a b : reason) : bool :=
   | _, _ => false
   end.
 
-Definition check : design -> verdict := check_with Coded.
-Definition check_fixed : design -> verdict := check_with Fixed.
+Definition check : design -> verdict := check_with Current.
+Definition check_old : design -> verdict := check_with Old.
 
 (** ** SPEC *)
 
 (** the driving units of the emitted architecture, always with the always block apart *)
-Definition units (D : design) : list (owner * event) := visits Fixed 0 (all_contexts D).
+Definition units (D : design) : list (owner * event) := visits Current 0 (all_contexts D).
 
 Definition writes_root (root : positive) (oe : owner * event) : bool :=
   is_write (snd oe).(e_acc) && Pos.eqb (snd oe).(e_root) root.
